@@ -2,7 +2,7 @@
     Property theorems only (closed by [exact]); see DESIGN.md section 5 C01
     for the full statement and for what is still missing. *)
 From Coq Require Import ZArith Bool List String.
-From PV Require Import Model.Term Model.Unify Model.Clause Model.Machine Proofs.Promise Proofs.Trampoline.
+From PV Require Import Model.Term Model.Unify Model.Clause Model.Machine Proofs.Promise Proofs.Trampoline Proofs.FuelMono.
 Import ListNotations.
 Open Scope Z_scope.
 
@@ -34,3 +34,40 @@ Example C01_run_example :
   exists r st', force 50 [mkP 7 [ThUnify (Var 0) (Int 1) KTop empty_env] false None None None false None None]
                       (init_state [] 100 [Var 0] 5 None) = (r, st') /\ r = FFalse /\ s_answers st' = [[Int 1]].
 Proof. eexists _, _. split; [vm_compute; reflexivity | split; reflexivity]. Qed.
+
+(** What M computes does not depend on the fuel: a run of the trampoline that
+    ends otherwise than by lack of fuel ends in the same way and in the same
+    state with any larger amount ([C01_force_fuel_monotone]), so two such runs
+    agree ([C01_force_deterministic]); for a whole query the answers handed to
+    the consumer (in order), the end of the search -- "no (more) answers", an
+    error, the consumer satisfied -- and the final database are a function of
+    program, query, limit and cancellation budget.  All eleven mutually
+    recursive functions of the machine are covered (Proofs/FuelMono.v). *)
+Theorem C01_force_fuel_monotone :
+  forall n m stack st r st', (n <= m)%nat ->
+    force n stack st = (r, st') -> r <> FOutOfFuel -> force m stack st = (r, st').
+Proof. exact force_mono. Qed.
+Print Assumptions C01_force_fuel_monotone.
+
+Theorem C01_force_deterministic :
+  forall n1 n2 stack st r1 st1 r2 st2,
+    force n1 stack st = (r1, st1) -> r1 <> FOutOfFuel ->
+    force n2 stack st = (r2, st2) -> r2 <> FOutOfFuel ->
+    r1 = r2 /\ st1 = st2.
+Proof. exact force_deterministic. Qed.
+Print Assumptions C01_force_deterministic.
+
+Theorem C01_answers_do_not_depend_on_fuel :
+  forall n1 n2 db nextv q qvars limit polls r1 st1 r2 st2,
+    run_query n1 db nextv q qvars limit polls = (r1, st1) -> r1 <> FOutOfFuel ->
+    run_query n2 db nextv q qvars limit polls = (r2, st2) -> r2 <> FOutOfFuel ->
+    r1 = r2 /\ s_answers st1 = s_answers st2 /\ s_db st1 = s_db st2.
+Proof. exact run_query_deterministic. Qed.
+Print Assumptions C01_answers_do_not_depend_on_fuel.
+
+(** non-vacuity: the run of [C01_run_example] with 50 and with 500 units of fuel *)
+Example C01_fuel_example :
+  let stack := [mkP 7 [ThUnify (Var 0) (Int 1) KTop empty_env] false None None None false None None] in
+  let st := init_state [] 100 [Var 0] 5 None in
+  fst (force 50 stack st) = FFalse /\ force 500 stack st = force 50 stack st.
+Proof. split; vm_compute; reflexivity. Qed.
